@@ -143,6 +143,23 @@ def gen_crash(rng, n, tier):
             g.ops.append(f"getblock {h + 1} full")
             g.ops.append(f"getblock {h + 2} full")
             hs.append(History(g.ops, tags={f"mask:S{s}J{j}C{c}B{b}", f"height:{h}"}))
+    # write-level fault injection: the process dies after the ks-th low-level write to the state store and the kc-th to the
+    # chain index, whatever those writes are in the current code
+    for h in heights:
+        for ks in (0, 1, 2, 3):
+            for kc in (0, 1, 2):
+                for b in (0, 3, 5):
+                    r = _r.Random(rng.getrandbits(64))
+                    g = StoreGen(r)
+                    for _ in range(h - 1):
+                        g.persist()
+                    g.ops.append(f"crashw ks={ks} kc={kc} B={b} " + g.new_block_args())
+                    g.ops.append("chainmeta")
+                    g.ops.append("persist " + g.new_block_args())
+                    g.ops.append("chainmeta")
+                    g.ops.append(f"getblock {h} full")
+                    g.ops.append(f"getblock {h + 1} full")
+                    hs.append(History(g.ops, tags={f"wmask:ks{ks}kc{kc}B{b}", f"height:{h}"}))
     return hs
 
 
@@ -272,6 +289,11 @@ def mon_c11(h, obs):
         if not op.startswith("crash"):
             continue
         kvs = dict(x.split("=", 1) for x in op.split()[1:] if "=" in x)
+        if op.startswith("crashw"):
+            # state store got its first write (the commit batch) iff ks >= 1; the chain index its batch iff kc >= 1
+            kvs["S"] = int(int(kvs.get("ks", 0)) >= 1)
+            kvs["J"] = int(int(kvs.get("ks", 0)) >= 2)
+            kvs["C"] = int(int(kvs.get("kc", 0)) >= 1)
         mask = f"S{kvs.get('S', 0)}J{kvs.get('J', 0)}C{kvs.get('C', 0)}B{kvs.get('B', 0)}"
         m = re.match(r"h=(\d+) (.*)", o)
         if not m:
@@ -281,13 +303,18 @@ def mon_c11(h, obs):
         if rest.startswith("open-error"):
             hits.append(Hit(f"C11/{_cls(mask)}", f"after a crash with durable writes {mask} while committing block {hh} the ledger does not open: {rest}", op))
             break
-        mm = re.match(r"opened chain=(\d+) state=(\d+) blockfile=(\d+) head=(\w+)", rest)
+        mm = re.match(r"opened chain=(\d+) state=(\d+) blockfile=(\d+) head=(\w+)(?: statekey=(\S+))?", rest)
         c, s, b, head = int(mm.group(1)), int(mm.group(2)), int(mm.group(3)), mm.group(4)
+        sk = mm.group(5)
         if c not in (hh - 1, hh):
             hits.append(Hit(f"C11/{_cls(mask)}", f"reopened at chain height {c} after crash in block {hh}", op))
         if head != "readable" or not (c == s == b):
             hits.append(Hit(f"C11/{_cls(mask)}",
                             f"after a crash with durable writes {mask} in block {hh}: chain index at {c}, state at {s}, blockfile has {b} blocks, head {head}", op))
+            break
+        if sk is not None and c == s and sk != (str(c) if c > 0 else "-"):
+            hits.append(Hit("C11/state-content-ahead-of-state-height" if sk.isdigit() and int(sk) > c else "C11/state-content-not-at-height",
+                            f"after a crash ({op.split()[0]} {mask}) in block {hh} the ledger reopens at height {c} but the state store holds the data of block {sk}", op))
             break
         # continuation
         rest_obs = obs[i + 1:]
